@@ -1,6 +1,7 @@
 (* PM.Model.World — the socket-module seam as an explicit world.
    * non-recv calls (getaddrinfo, socket, setsockopt, wrap_socket, settimeout, connect, sendall, close)
-     consume one item of w_script each (ONormal | OFail e);
+     consume one item of w_script each (ONormal | OFail e | OLate e: a KeyboardInterrupt-like exception that surfaces
+     inside sendall after the kernel has taken the bytes);
    * every sendall hands the bytes to the PEER, whose reply becomes available on that socket;
    * every recv consumes one adversary CHOICE: deliver at most n of the available bytes, EINTR,
      fail, or end of stream; a recv with nothing available and no fault scripted would block
@@ -12,7 +13,7 @@ From PM Require Import Lib.Py.
 Import ListNotations.
 Open Scope Z_scope.
 
-Inductive outcome := ONormal | OFail (e : exn).
+Inductive outcome := ONormal | OFail (e : exn) | OLate (e : exn).    (* OLate: the call takes effect, then raises (sendall only) *)
 Inductive choice := CChunk (n : Z) | CEintr | CFail (e : exn) | CEof.
 
 Inductive ev :=
@@ -96,7 +97,10 @@ Definition fresh_wrapped (raw : Z) : M Z :=
 
 (* a non-recv call that succeeds or raises, as the script says *)
 Definition call (e : ev) : M unit :=
-  mbind (log e) (fun _ => mbind pop (fun o => match o with OFail x => throw x | ONormal => ret tt end)).
+  mbind (log e) (fun _ => mbind pop (fun o => match o with OFail x => throw x | _ => ret tt end)).
+(* ... and one that may be interrupted after it has taken effect: the exception to raise once the effect is done *)
+Definition call_late (e : ev) : M (option exn) :=
+  mbind (log e) (fun _ => mbind pop (fun o => match o with OFail x => throw x | OLate x => ret (Some x) | ONormal => ret None end)).
 (* sock.sendall(b): on success the peer sees b and its reply becomes available on this socket *)
 (* the peer sees b; its reply becomes available on self.sock *)
 Definition deliver_reply (b : list Z) : M unit :=
@@ -110,7 +114,9 @@ Definition deliver_reply (b : list Z) : M unit :=
 Definition send (b : list Z) : M unit :=
   mbind get_sock (fun s => match s with
                            | None => throw AttributeError
-                           | Some sid => mbind (call (ESend sid b)) (fun _ => deliver_reply b)
+                           | Some sid =>
+                               mbind (call_late (ESend sid b)) (fun late =>
+                               mbind (deliver_reply b) (fun _ => match late with Some x => throw x | None => ret tt end))
                            end).
 (* `buf = b""` at the start of an exchange: whatever the previous exchange left in its local buffer
    was dropped when that call returned (ghost w_discarded remembers it) *)
@@ -151,7 +157,7 @@ Arguments w_discarded {P}. Arguments w_trace {P}. Arguments w_next {P}. Argument
 Arguments upd_script {P}. Arguments upd_choices {P}. Arguments upd_peer {P}. Arguments upd_conns {P}. Arguments upd_buf {P}.
 Arguments upd_discarded {P}. Arguments upd_trace {P}. Arguments upd_next {P}. Arguments upd_sock {P}. Arguments upd_bad {P}.
 Arguments w_bad {P}. Arguments drop_sock {P}. Arguments mark_bad {P}. Arguments cur_avail {P}.
-Arguments send {P}. Arguments deliver_reply {P}.
+Arguments send {P}. Arguments deliver_reply {P}. Arguments call_late {P}.
 
 Declare Scope world_scope.
 Delimit Scope world_scope with world.
